@@ -268,11 +268,15 @@ func init() {
 			"core-type constraints ~[]E and ~map[K]V; un-inferable result-only parameters) and 3 generic types: every function x 47 operands, 7 two-parameter functions x 22 x 22 operand pairs, explicit / partial / over-long / empty index lists, " +
 			"generic function values assigned or passed where a function type is expected (deferred inference), instantiated values, generic types with good and bad type arguments, constraint violations, go/defer. Each use is a one-statement program driven through the front end. " +
 			"Oracle: accept/reject equals go/types' verdict on the same source; accepted output type-checks; canonical dump equal (explicit index lists preserved); every reported sub-expression type (instantiated signatures, results) identical to go/types'. " +
+			"TYPE-AS-PARAMETER calls (API-driven, complete in both tiers): 12 XGox_ functions (1-2 leading explicit type parameters, 1-3 inferred trailing ones, comparable / ~int|~float64 / ~string constraints, function-typed and result-only parameters) x leading types x all argument tuples over 15 operands, also with too few / too many leading types; reference = go/types on the partial instantiation XGox_F[T...](args...): accept/reject equal, the type arguments WRITTEN OUT in the emitted call identical to those Go infers, reported result type identical. " +
 			"non-trivial = use decided; distinct by statement text",
 		Assume: []string{"go/types inference (the running toolchain) is the reference", "methods on generic receiver types cannot be driven faithfully through the builder API and are not generated"},
 		MinNT:  1000,
-		Plan:   func(tier string, seed uint64) int { return len(c07List()) },
+		Plan:   func(tier string, seed uint64) int { return len(c07List()) + len(c07xCalls()) },
 		Run: func(tier string, seed uint64, i int) []h.Result {
+			if i >= len(c07List()) {
+				return c07xRun(i - len(c07List()))
+			}
 			stmt := c07List()[i]
 			src := c07Env + "\nfunc atom() {\n\t" + stmt + "\n}\n"
 			if strings.HasPrefix(stmt, "DECL ") {
